@@ -129,289 +129,6 @@ def _is_self_attr(n, attr):
     return isinstance(n, ast.Attribute) and _is_name(n.value, 'self') and n.attr == attr
 
 
-def _escape_call_arg(n):
-    """escape(X) -> X else None"""
-    if isinstance(n, ast.Call) and _is_name(n.func, 'escape') and len(n.args) == 1 and not n.keywords:
-        return n.args[0]
-    return None
-
-
-def _branch(test, body, esc_names):
-    b = {'test': None, 'ctype': None, 'charset_none': False, 'esc': None, 'br': None, 'cpre': '', 'csuf': '',
-         'cesc': None, 'page': None}
-    if test is not None:
-        if not (isinstance(test, ast.Compare) and _is_name(test.left, 'match') and len(test.ops) == 1
-                and isinstance(test.ops[0], ast.Eq)):
-            raise ValueError('branch test is not match == <const>')
-        b['test'] = _const_str(test.comparators[0])
-    for st in body:
-        if isinstance(st, ast.ClassDef):
-            # JsonPageTemplate: checked separately
-            continue
-        if isinstance(st, ast.If):
-            if not _is_name(st.test, 'comment') or st.orelse or len(st.body) != 1:
-                raise ValueError('unexpected if in branch')
-            a = st.body[0]
-            if not (isinstance(a, ast.Assign) and _is_name(a.targets[0], 'html_comment')):
-                raise ValueError('unexpected statement under if comment')
-            v = a.value
-            if isinstance(v, ast.BinOp) and isinstance(v.op, ast.Mod):
-                fmt = _const_str(v.left)
-                if fmt.count('%s') != 1 or fmt.replace('%s', '').count('%'):
-                    raise ValueError('comment format')
-                b['cpre'], b['csuf'] = fmt.split('%s')
-                v = v.right
-            inner = _escape_call_arg(v)
-            if inner is not None and _is_name(inner, 'comment'):
-                b['cesc'] = True
-            elif _is_name(v, 'comment'):
-                b['cesc'] = False
-            else:
-                raise ValueError('html_comment value')
-            continue
-        if not (isinstance(st, ast.Assign) and len(st.targets) == 1):
-            raise ValueError('unexpected statement in branch: %s' % type(st).__name__)
-        tg, v = st.targets[0], st.value
-        if _is_self_attr(tg, 'content_type'):
-            b['ctype'] = _const_str(v)
-        elif _is_self_attr(tg, 'charset'):
-            if not (isinstance(v, ast.Constant) and v.value is None):
-                raise ValueError('charset assigned a non-None value')
-            b['charset_none'] = True
-        elif _is_name(tg, 'escape'):
-            if not isinstance(v, ast.Name):
-                raise ValueError('escape = <non-name>')
-            b['esc'] = esc_names.get(v.id, 'EscUnknown')
-        elif _is_name(tg, 'br'):
-            b['br'] = _const_str(v)
-        elif _is_name(tg, 'page_template'):
-            if _is_self_attr(v, 'html_template_obj'):
-                b['page'] = 'PageHtml'
-            elif _is_self_attr(v, 'plain_template_obj'):
-                b['page'] = 'PagePlain'
-            elif isinstance(v, ast.Call) and _is_name(v.func, 'JsonPageTemplate') and len(v.args) == 1 \
-                    and _is_name(v.args[0], 'self'):
-                b['page'] = 'PageJson'
-            else:
-                raise ValueError('page_template value')
-        else:
-            raise ValueError('unexpected assignment in branch')
-    if None in (b['ctype'], b['esc'], b['br'], b['page']):
-        raise ValueError('branch incomplete: %r' % b)
-    if b['cesc'] is None:
-        raise ValueError('branch without html_comment assignment')
-    return b
-
-
-DEFAULT_BRANCHES = [
-    {'test': 'text/html', 'ctype': 'text/html', 'charset_none': False, 'esc': 'EscHtml', 'br': '<br/>',
-     'cpre': '<!-- ', 'csuf': ' -->', 'cesc': True, 'page': 'PageHtml'},
-    {'test': 'application/json', 'ctype': 'application/json', 'charset_none': True, 'esc': 'EscNone', 'br': '\n',
-     'cpre': '', 'csuf': '', 'cesc': True, 'page': 'PageJson'},
-    {'test': None, 'ctype': 'text/plain', 'charset_none': False, 'esc': 'EscNone', 'br': '\n',
-     'cpre': '', 'csuf': '', 'cesc': True, 'page': 'PagePlain'}]
-DEFAULT_ARGS = [('br', 'ABr', False), ('explanation', 'AExplanation', True), ('detail', 'ADetail', True),
-                ('comment', 'AComment', True), ('html_comment', 'AHtmlComment', False)]
-
-
-def prepare_facts(mod, problems):
-    out = {'offers': ['text/html', 'application/json'], 'fallback': 'text/plain', 'branches': DEFAULT_BRANCHES,
-           'args': DEFAULT_ARGS, 'env_escaped': True, 'hdr_escaped': True, 'hdr_lower': True,
-           'skip_prefix': 'wsgi.', 'skip_char': '.', 'json_keys': [('message', 0), ('code', 1), ('title', 2)],
-           'accept_key': 'HTTP_ACCEPT', 'accept_default': ''}
-    fn = mod.find('HTTPException.prepare')
-    if fn is None:
-        problems.append('HTTPException.prepare not found')
-        return out
-    # escape function names: module-level imports/defs
-    esc_names = {}
-    for st in mod.tree.body:
-        if isinstance(st, ast.ImportFrom) and st.module == 'webob':
-            for a in st.names:
-                if a.name == 'html_escape':
-                    esc_names[a.asname or a.name] = 'EscHtml'
-        if isinstance(st, ast.FunctionDef) and st.name == '_no_escape':
-            esc_names['_no_escape'] = 'EscNone'
-    if sorted(esc_names.values()) != ['EscHtml', 'EscNone']:
-        problems.append('escape functions not found as expected: %r' % esc_names)
-    try:
-        outer = fn.body
-        if not (len(outer) == 1 and isinstance(outer[0], ast.If) and not outer[0].orelse):
-            raise ValueError('prepare: outer statement')
-        g = outer[0].test
-        want = "BoolOp(op=And(), values=[UnaryOp(op=Not(), operand=Attribute(value=Name(id='self', ctx=Load()), " \
-               "attr='has_body', ctx=Load())), UnaryOp(op=Not(), operand=Attribute(value=Name(id='self', ctx=Load()), " \
-               "attr='empty_body', ctx=Load()))])"
-        if ast.dump(g) != want:
-            raise ValueError('prepare: guard changed')
-        body = outer[0].body
-        by_target = {}
-        ifs = []
-        for st in body:
-            if isinstance(st, ast.Assign) and len(st.targets) == 1 and isinstance(st.targets[0], ast.Name):
-                by_target.setdefault(st.targets[0].id, []).append(st.value)
-            elif isinstance(st, ast.If):
-                ifs.append(st)
-        # comment = self.comment or ''
-        want = "BoolOp(op=Or(), values=[Attribute(value=Name(id='self', ctx=Load()), attr='comment', ctx=Load()), Constant(value='')])"
-        if [ast.dump(v) for v in by_target.get('comment', [])] != [want]:
-            raise ValueError("prepare: comment = self.comment or '' changed")
-        if [ast.dump(v) for v in by_target.get('html_comment', [])] != ["Constant(value='')"]:
-            raise ValueError("prepare: html_comment = '' changed")
-        # accept_value = environ.get('HTTP_ACCEPT', '')
-        av = by_target.get('accept_value', [None])[0]
-        if not (isinstance(av, ast.Call) and isinstance(av.func, ast.Attribute) and av.func.attr == 'get'
-                and _is_name(av.func.value, 'environ') and len(av.args) == 2):
-            raise ValueError('prepare: accept_value')
-        out['accept_key'] = _const_str(av.args[0])
-        out['accept_default'] = _const_str(av.args[1])
-        ac = by_target.get('accept', [None])[0]
-        if ast.dump(ac) != "Call(func=Name(id='create_accept_header', ctx=Load()), args=[Name(id='accept_value', ctx=Load())], keywords=[])":
-            raise ValueError('prepare: accept = create_accept_header(accept_value) changed')
-        acc = by_target.get('acceptable', [])
-        if len(acc) != 2:
-            raise ValueError('prepare: acceptable assignments')
-        a0, a1 = acc
-        if not (isinstance(a0, ast.Call) and isinstance(a0.func, ast.Attribute) and a0.func.attr == 'acceptable_offers'
-                and _is_name(a0.func.value, 'accept') and len(a0.args) == 1 and isinstance(a0.args[0], ast.List)):
-            raise ValueError('prepare: acceptable_offers call')
-        out['offers'] = [_const_str(e) for e in a0.args[0].elts]
-        if not (isinstance(a1, ast.BinOp) and isinstance(a1.op, ast.Add) and isinstance(a1.right, ast.List)
-                and len(a1.right.elts) == 1
-                and ast.dump(a1.left) == "ListComp(elt=Subscript(value=Name(id='offer', ctx=Load()), slice=Constant(value=0), ctx=Load()), generators=[comprehension(target=Name(id='offer', ctx=Store()), iter=Name(id='acceptable', ctx=Load()), ifs=[], is_async=0)])"):
-            raise ValueError('prepare: acceptable = [...] + [fallback]')
-        out['fallback'] = _const_str(a1.right.elts[0])
-        if [ast.dump(v) for v in by_target.get('match', [])] != ["Subscript(value=Name(id='acceptable', ctx=Load()), slice=Constant(value=0), ctx=Load())"]:
-            raise ValueError('prepare: match = acceptable[0] changed')
-        # the if/elif/else chain
-        chain = [i for i in ifs if isinstance(i.test, ast.Compare) and _is_name(i.test.left, 'match')]
-        if len(chain) != 1:
-            raise ValueError('prepare: branch chain')
-        brs = []
-        node = chain[0]
-        while True:
-            brs.append(_branch(node.test, node.body, esc_names))
-            if len(node.orelse) == 1 and isinstance(node.orelse[0], ast.If):
-                node = node.orelse[0]
-                continue
-            if not node.orelse:
-                raise ValueError('prepare: no else branch')
-            brs.append(_branch(None, node.orelse, esc_names))
-            break
-        out['branches'] = brs
-        # JsonPageTemplate.substitute / _json_formatter
-        jf = mod.find('HTTPException._json_formatter')
-        ret = jf.body[-1] if jf is not None else None
-        if not (isinstance(ret, ast.Return) and isinstance(ret.value, ast.Dict)):
-            raise ValueError('_json_formatter shape')
-        srcs = {"Name(id='body', ctx=Load())": 0, "Name(id='status', ctx=Load())": 1,
-                "Attribute(value=Name(id='self', ctx=Load()), attr='title', ctx=Load())": 2}
-        out['json_keys'] = [(_const_str(k), srcs[ast.dump(v)]) for k, v in zip(ret.value.keys, ret.value.values)]
-        jsub = mod.find('HTTPException.prepare.JsonPageTemplate.substitute')
-        if jsub is None:
-            raise ValueError('JsonPageTemplate.substitute not found')
-        jret = jsub.body[-1]
-        if ast.dump(jret) != "Return(value=Call(func=Attribute(value=Name(id='json', ctx=Load()), attr='dumps', ctx=Load()), args=[Name(id='jsonbody', ctx=Load())], keywords=[]))":
-            raise ValueError('JsonPageTemplate.substitute: return json.dumps(jsonbody) changed')
-        # args = {...}
-        ad = by_target.get('args', [None])[0]
-        if not isinstance(ad, ast.Dict):
-            raise ValueError('prepare: args dict')
-        args = []
-        for k, v in zip(ad.keys, ad.values):
-            key = _const_str(k)
-            escaped = False
-            inner = _escape_call_arg(v)
-            if inner is not None:
-                escaped, v = True, inner
-            d = ast.dump(v)
-            if d == "Name(id='br', ctx=Load())":
-                src = 'ABr'
-            elif d == "Attribute(value=Name(id='self', ctx=Load()), attr='explanation', ctx=Load())":
-                src = 'AExplanation'
-            elif d == "BoolOp(op=Or(), values=[Attribute(value=Name(id='self', ctx=Load()), attr='detail', ctx=Load()), Constant(value='')])":
-                src = 'ADetail'
-            elif d == "Name(id='comment', ctx=Load())":
-                src = 'AComment'
-            elif d == "Name(id='html_comment', ctx=Load())":
-                src = 'AHtmlComment'
-            else:
-                raise ValueError('prepare: args[%r] has an unrecognised value' % key)
-            args.append((key, src, escaped))
-        out['args'] = args
-        if [ast.dump(v) for v in by_target.get('body_tmpl', [])] != ["Attribute(value=Name(id='self', ctx=Load()), attr='body_template_obj', ctx=Load())"]:
-            raise ValueError('prepare: body_tmpl')
-        # custom template branch
-        cust = [i for i in ifs if not isinstance(i.test, ast.Compare) or not _is_name(i.test.left, 'match')]
-        cust = [i for i in cust if isinstance(i.test, ast.Compare) and isinstance(i.test.ops[0], ast.IsNot)]
-        if len(cust) != 1:
-            raise ValueError('prepare: custom-template test')
-        ct = cust[0]
-        if ast.dump(ct.test) != "Compare(left=Attribute(value=Name(id='HTTPException', ctx=Load()), attr='body_template_obj', ctx=Load()), ops=[IsNot()], comparators=[Name(id='body_tmpl', ctx=Load())])":
-            raise ValueError('prepare: custom-template test changed')
-        if len(ct.body) != 2 or not all(isinstance(x, ast.For) for x in ct.body) or ct.orelse:
-            raise ValueError('prepare: custom-template loops')
-        eloop, hloop = ct.body
-        if ast.dump(eloop.iter) != "Call(func=Attribute(value=Name(id='environ', ctx=Load()), attr='items', ctx=Load()), args=[], keywords=[])":
-            raise ValueError('environ loop iter')
-        if len(eloop.body) != 2 or not isinstance(eloop.body[0], ast.If):
-            raise ValueError('environ loop body')
-        skip = eloop.body[0]
-        t = skip.test
-        if not (isinstance(t, ast.BoolOp) and isinstance(t.op, ast.And) and len(t.values) == 2
-                and isinstance(t.values[0], ast.UnaryOp) and isinstance(t.values[0].op, ast.Not)
-                and isinstance(t.values[0].operand, ast.Call)
-                and isinstance(t.values[0].operand.func, ast.Attribute)
-                and t.values[0].operand.func.attr == 'startswith' and _is_name(t.values[0].operand.func.value, 'k')
-                and isinstance(t.values[1], ast.Compare) and isinstance(t.values[1].ops[0], ast.In)
-                and _is_name(t.values[1].comparators[0], 'k')
-                and len(skip.body) == 1 and isinstance(skip.body[0], ast.Continue) and not skip.orelse):
-            raise ValueError('environ loop skip test')
-        out['skip_prefix'] = _const_str(t.values[0].operand.args[0])
-        out['skip_char'] = _const_str(t.values[1].left)
-        if len(out['skip_char']) != 1:
-            raise ValueError('skip char')
-        ea = eloop.body[1]
-        if not (isinstance(ea, ast.Assign) and ast.dump(ea.targets[0]) == "Subscript(value=Name(id='args', ctx=Load()), slice=Name(id='k', ctx=Load()), ctx=Store())"):
-            raise ValueError('environ loop assignment')
-        inner = _escape_call_arg(ea.value)
-        if inner is not None and _is_name(inner, 'v'):
-            out['env_escaped'] = True
-        elif _is_name(ea.value, 'v'):
-            out['env_escaped'] = False
-        else:
-            raise ValueError('environ loop value')
-        if ast.dump(hloop.iter) != "Call(func=Attribute(value=Attribute(value=Name(id='self', ctx=Load()), attr='headers', ctx=Load()), attr='items', ctx=Load()), args=[], keywords=[])":
-            raise ValueError('headers loop iter')
-        if len(hloop.body) != 1 or not isinstance(hloop.body[0], ast.Assign):
-            raise ValueError('headers loop body')
-        ha = hloop.body[0]
-        sl = ha.targets[0]
-        if not (isinstance(sl, ast.Subscript) and _is_name(sl.value, 'args')):
-            raise ValueError('headers loop target')
-        if ast.dump(sl.slice) == "Call(func=Attribute(value=Name(id='k', ctx=Load()), attr='lower', ctx=Load()), args=[], keywords=[])":
-            out['hdr_lower'] = True
-        elif _is_name(sl.slice, 'k'):
-            out['hdr_lower'] = False
-        else:
-            raise ValueError('headers loop key')
-        inner = _escape_call_arg(ha.value)
-        if inner is not None and _is_name(inner, 'v'):
-            out['hdr_escaped'] = True
-        elif _is_name(ha.value, 'v'):
-            out['hdr_escaped'] = False
-        else:
-            raise ValueError('headers loop value')
-        # the two substitutions
-        if ast.dump(by_target.get('body', [None])[0]) != "Call(func=Attribute(value=Name(id='body_tmpl', ctx=Load()), attr='substitute', ctx=Load()), args=[Name(id='args', ctx=Load())], keywords=[])":
-            raise ValueError('prepare: body = body_tmpl.substitute(args) changed')
-        if ast.dump(by_target.get('page', [None])[0]) != "Call(func=Attribute(value=Name(id='page_template', ctx=Load()), attr='substitute', ctx=Load()), args=[], keywords=[keyword(arg='status', value=Attribute(value=Name(id='self', ctx=Load()), attr='status', ctx=Load())), keyword(arg='body', value=Name(id='body', ctx=Load()))])":
-            raise ValueError('prepare: page = page_template.substitute(status=self.status, body=body) changed')
-    except (ValueError, KeyError, AttributeError, IndexError, TypeError) as e:
-        problems.append('prepare(): unrecognised shape: %s' % e)
-    return out
-
-
 def router_fact(src, problems):
     """the not-found raise of Router.handle_request: msg = request.<attr>; raise HTTPNotFound(msg)"""
     try:
@@ -466,12 +183,12 @@ def _bool(b):
 
 
 def extract(src, problems):
+    from . import translate
     try:
         mod = F.Module(src, 'pyramid/httpexceptions.py')
     except (OSError, SyntaxError) as e:
         problems.append('cannot parse httpexceptions.py: %s' % e)
-        return F.HEADER + TYPES, {}
-    pf = prepare_facts(mod, problems)
+        return F.HEADER + 'Require Import Verif.Model.C19_base.\n', {}
     classes = class_table(mod.tree, problems)
     tm = {}
     base = mod.find('HTTPException')
@@ -483,40 +200,13 @@ def extract(src, problems):
         except (KeyError, ValueError) as e:
             problems.append('HTTPException.%s: %s' % (name, e))
             tm[name] = dflt
-    # status = f'{self.code} {self.title}' in __init__
-    init = mod.find('HTTPException.__init__')
-    ok = False
-    if init is not None:
-        for st in init.body:
-            if isinstance(st, ast.Assign) and _is_name(st.targets[0], 'status'):
-                ok = ast.unparse(st.value) == "f'{self.code} {self.title}'"
-    if not ok:
-        problems.append("HTTPException.__init__: status = f'{self.code} {self.title}' changed")
     nf = router_fact(src, problems)
     fmts = raiser_formats(src, problems)
-    L = [F.HEADER, TYPES]
+    gen, meta = translate.generate(src, problems)
+    L = [F.HEADER, 'Require Import Verif.Model.C19_base.\n']
     L.append('Definition html_template : text := %s.\n' % _s(tm['html_template_obj']))
     L.append('Definition plain_template : text := %s.\n' % _s(tm['plain_template_obj']))
     L.append('Definition default_body_template : text := %s.\n' % _s(tm['body_template_obj']))
-    L.append('Definition offers : list text := %s.\n' % F.coq_texts(pf['offers']))
-    L.append('Definition fallback_type : text := %s.\n' % _s(pf['fallback']))
-    L.append('Definition accept_key : text := %s.\n' % _s(pf['accept_key']))
-    L.append('Definition accept_default : text := %s.\n' % _s(pf['accept_default']))
-    brs = []
-    for b in pf['branches']:
-        brs.append('  mkBranch %s %s %s %s %s %s %s %s %s' % (
-            'None' if b['test'] is None else '(Some %s)' % _s(b['test']), _s(b['ctype']), _bool(b['charset_none']),
-            b['esc'], _s(b['br']), _s(b['cpre']), _s(b['csuf']), _bool(b['cesc']), b['page']))
-    L.append('Definition branches : list branch := [\n%s].\n' % ';\n'.join(brs))
-    L.append('Definition args_spec : list (text * (argsrc * bool)) := [%s].\n' % '; '.join(
-        '(%s, (%s, %s))' % (_s(k), s, _bool(e)) for k, s, e in pf['args']))
-    L.append('Definition env_escaped : bool := %s.\n' % _bool(pf['env_escaped']))
-    L.append('Definition hdr_escaped : bool := %s.\n' % _bool(pf['hdr_escaped']))
-    L.append('Definition hdr_lower : bool := %s.\n' % _bool(pf['hdr_lower']))
-    L.append('Definition env_skip_prefix : text := %s.\n' % _s(pf['skip_prefix']))
-    L.append('Definition env_skip_char : N := %d%%N.\n' % ord(pf['skip_char']))
-    L.append('Definition json_keys : list (text * N) := [%s].\n' % '; '.join(
-        '(%s, %d%%N)' % (_s(k), s) for k, s in pf['json_keys']))
     L.append('Definition notfound_detail_attr : text := %s.\n' % _s(nf))
     for k in sorted(fmts):
         L.append('Definition fmt_%s : text := %s.\n' % (k, _s(fmts[k])))
@@ -526,11 +216,14 @@ def extract(src, problems):
             _s(e['name']), _s(str(e['code'])), _s(e['title']), _s(e['explanation']), _s(e['tmpl']),
             _bool(e['tmpl_owner'] == 'HTTPException'), _bool(e['empty']), _bool(e['move'])))
     L.append('Definition classes : list cls := [\n%s].\n' % ';\n'.join(cl))
+    L.append('\n(* ---- REGENERATED by harness/c19/translate.py from HTTPException.__init__, _HTTPMove.__init__,\n'
+             '   _json_formatter, prepare, __call__ of this source tree *)\n')
+    L.append(gen)
     summary = {'classes': len(classes),
                'custom_template_classes': sorted(e['name'] for e in classes if e['tmpl_owner'] != 'HTTPException'),
                'empty_body_classes': sorted(e['name'] for e in classes if e['empty']),
-               'branches': [[b['test'], b['ctype'], b['esc'], b['page']] for b in pf['branches']],
-               'args': [[k, s, e] for k, s, e in pf['args']],
-               'env_escaped': pf['env_escaped'], 'hdr_escaped': pf['hdr_escaped'],
-               'notfound_detail': 'request.' + nf, 'raiser_formats': fmts}
+               'notfound_detail': 'request.' + nf, 'raiser_formats': fmts,
+               'translated': ['HTTPException.__init__', '_HTTPMove.__init__', 'HTTPException._json_formatter',
+                              'HTTPException.prepare', 'HTTPException.__call__'],
+               'negotiation': {'offers': meta.get('offers'), 'accept': meta.get('env_get')}}
     return ''.join(L), summary
